@@ -161,5 +161,56 @@ def send_sync():
     return pr
 
 
+DEBUG_IMPLS = {
+    'rand_xorshift': [('Debug@XorShiftRng::fmt', 'XorShiftRng {}')],
+    'rand_hc': [('hc128::Debug@Hc128Core::fmt', 'Hc128Core {}')],
+    'rand_isaac': [('isaac::Debug@IsaacCore::fmt', 'IsaacCore {}'), ('isaac64::Debug@Isaac64Core::fmt', 'Isaac64Core {}')],
+    'rand_jitter': [('Debug@JitterRng::fmt', 'JitterRng {}')],
+}
+WRAPPERS = {
+    'rand_hc': [('hc128::Debug@Hc128Rng::fmt', 'Hc128Rng')],
+    'rand_isaac': [('isaac::Debug@IsaacRng::fmt', 'IsaacRng'), ('isaac64::Debug@Isaac64Rng::fmt', 'Isaac64Rng')],
+}
+
+
+def debug_frame():
+    """C17 (frame obligation): the custom Debug impls of the state-hiding types do not read `self` at all - their
+    expanded bodies write one literal; the derived impls of the BlockRng wrappers pass only `self.0` (the rand_core
+    BlockRng, whose Debug prints the core - custom impl above -, the buffer length and the public read position)."""
+    pr = PartResult('static:debug_frame')
+    t0 = time.time()
+    for crate, impls in DEBUG_IMPLS.items():
+        try:
+            txt, _ = expand(crate)
+            cr = Crate(txt)
+        except (Undecided, AnchorLost) as e:
+            pr.undecided.append('%s: %s' % (crate, e))
+            continue
+        for path, literal in impls + WRAPPERS.get(crate, []):
+            if path not in cr.index:
+                pr.obs.append(Ob('debugframe:%s::%s' % (crate, path), ['C17'], UNDECIDED, 'rustc-expansion-scan', fn=path, kind='frame-scan',
+                                 text='Debug impl not found (anchor lost)', detail=[dict(message='anchor lost')]))
+                continue
+            it = cr.index[path]
+            body_m = cr.masked[it.body_open:it.body_close]
+            body = cr.text[it.body_open:it.body_close]
+            if (path, literal) in impls:
+                uses_self = re.search(r'\bself\b', body_m) is not None
+                has_lit = ('"%s"' % literal.replace('{', '{{').replace('}', '}}')) in body or ('"%s"' % literal) in body
+                ok = (not uses_self) and has_lit
+                msg = 'body mentions self' if uses_self else ('literal %r not found' % literal if not has_lit else '')
+                text = 'fmt body does not mention `self` and writes the literal "%s"' % literal
+            else:
+                uses = re.findall(r'self\.[A-Za-z0-9_]+', body_m)
+                ok = set(uses) <= {'self.0'} and ('"%s"' % literal) in body and 'debug_tuple_field1_finish' in body_m
+                msg = '' if ok else 'derived wrapper Debug prints more than the inner BlockRng: %s' % sorted(set(uses))
+                text = 'derived Debug passes only `self.0` (the BlockRng) to the formatter'
+            pr.obs.append(Ob('debugframe:%s::%s' % (crate, path), ['C17'], DISCHARGED if ok else FAILED, 'rustc-expansion-scan', fn=crate + '::' + path,
+                             kind='frame-scan', text=text, detail=[] if ok else [dict(message=msg, rendered=body[:800])]))
+    pr.cmd = 'scan of cargo +nightly rustc -- -Zunpretty=expanded output (Debug impls)'
+    pr.wall_s = time.time() - t0
+    return pr
+
+
 def run(name):
-    return dict(cfg_invariance=cfg_invariance, shared_state_scan=shared_state_scan, send_sync=send_sync)[name]()
+    return dict(cfg_invariance=cfg_invariance, shared_state_scan=shared_state_scan, send_sync=send_sync, debug_frame=debug_frame)[name]()
